@@ -4,6 +4,7 @@ package main
 // decides the property and writes the evidence file.
 
 import (
+	"os/exec"
 	"crypto/sha256"
 	"encoding/json"
 	"fmt"
@@ -732,6 +733,34 @@ func runReplay(cfg *RunCfg, f string) int {
 		return 2
 	}
 	fmt.Println(string(data))
+	var rep map[string]interface{}
+	if json.Unmarshal(data, &rep) != nil {
+		return 0
+	}
+	rs, _ := rep["replay"].(string)
+	i := strings.Index(rs, "{")
+	if i < 0 {
+		return 0
+	}
+	var detail map[string]interface{}
+	if json.Unmarshal([]byte(rs[i:]), &detail) != nil {
+		return 0
+	}
+	cmdline, _ := detail["command"].(string)
+	if cmdline == "" {
+		return 0
+	}
+	// run the recorded in-package test against the current tree again
+	fmt.Println("---- re-running:", cmdline)
+	c := exec.Command("sh", "-c", cmdline)
+	c.Env = append(os.Environ(), "GOFLAGS=-mod=mod", "GOPROXY=off", "GOSUMDB=off", "GOTOOLCHAIN=local")
+	out, _ := c.CombinedOutput()
+	fmt.Println(string(out))
+	if strings.Contains(string(out), "REPLAY clause = false") || strings.Contains(string(out), "REPLAY panic in call") {
+		fmt.Println("replay: the counterexample still fails on the current tree")
+		return 1
+	}
+	fmt.Println("replay: the counterexample does not fail on the current tree")
 	return 0
 }
 
